@@ -331,6 +331,21 @@ func (e *Engine) callOpaque(st *State, instr ssa.Instruction, call *ssa.CallComm
 		e.emit(st, "nil", e.site(instr, "nilfunc"), not(eq(fv.T, "0")), "called function value is non-nil "+e.posOf(instr.Pos()))
 	}
 	e.unmodelled(st, "funcvalue:"+e.posOf(instr.Pos()))
+	if pn := fnParamName(call.Value); pn != "" && len(st.frames) > 0 && st.frames[0].contract != nil {
+		if cls := st.frames[0].contract.FnParamReq[pn]; len(cls) > 0 {
+			// evaluated where the call happens: a0.. are the arguments, local
+			// variables of the calling function are visible
+			env := e.envFor(st, st.top())
+			env.useVars = true
+			env.old = st.frames[0].entry
+			for i, a := range args {
+				env.names[fmt.Sprintf("a%d", i)] = a
+			}
+			for i, cl := range cls {
+				e.emit(st, "pre", fmt.Sprintf("%s#%d", e.site(instr, "pre@"+pn), i), e.evalBool(env, cl), "guaranteed at every call of "+pn+": "+cl.Text+" "+e.posOf(instr.Pos()))
+			}
+		}
+	}
 	for _, a := range args {
 		e.escape(st, a)
 	}
@@ -413,10 +428,14 @@ func (e *Engine) callContract(st *State, instr ssa.Instruction, fn *ssa.Function
 	for i, rq := range c.Requires {
 		e.emit(st, "pre", fmt.Sprintf("%s#%d", e.site(instr, "pre@"+short), i), e.evalBool(env, rq), "requires of "+short+": "+rq.Text+" "+e.posOf(instr.Pos()))
 	}
-	if heapModifies(c) {
-		// the callee may store its arguments into memory it is allowed to modify
+	if heapModifies(c) && !e.modifiesOnlyPrivate(st, env, c) {
+		// the callee may store its arguments into memory it is allowed to
+		// modify; harmless when all of that memory is private itself, and
+		// impossible for arguments whose type does not fit those locations
 		for _, a := range args {
-			e.escape(st, a)
+			if e.storableInto(env, c, a) {
+				e.escape(st, a)
+			}
 		}
 	}
 	old := st.snapshot()
@@ -610,6 +629,10 @@ func (e *Engine) ifaceMethodApp(st *State, m *types.Func, recv *Val, args []*Val
 		rt := sig.Results().At(i).Type()
 		f := quoteSym(fmt.Sprintf("%s$%d", base, i))
 		e.declOnce("fun:"+f, fmt.Sprintf("(declare-fun %s (%s) %s)", f, strings.Join(asorts, " "), e.sortOf(rt)))
+		if e.rawIface {
+			rets = append(rets, &Val{T: sx(f, aterms...), Ty: rt})
+			continue
+		}
 		t := e.named(st, m.Name(), sx(f, aterms...), e.sortOf(rt))
 		st.assume(e.rangeOf(t, rt))
 		rets = append(rets, &Val{T: t, Ty: rt})
